@@ -291,9 +291,10 @@ LensR(p, pre, m, f, o, r) ==
          /\ m.type \in AttMgrTypes =>
                (res = exp.res /\ o.post.attesters = r.post.attesters /\ o.post.threshold = r.post.threshold)
     [] p = "C14" /\ m.type = "Batch" ->
-         /\ res = exp.res
+         LET silent == \E i \in DOMAIN m.msgs : DontCare(m.msgs[i]) IN     \* (a message the properties are silent about)
+         /\ ~silent => res = exp.res
          /\ res # "ok" => (o.post = pre /\ o.evs = <<>>)          \* the first failing message discards everything
-         /\ res = "ok" => (o.post = r.post /\ o.evs = exp.evs /\ o.calls = exp.calls)
+         /\ (res = "ok" /\ ~silent) => (o.post = r.post /\ o.evs = exp.evs /\ o.calls = exp.calls)
     [] p = "C14" ->
          /\ res # "ok" => (o.post = pre /\ o.evs = <<>>)
          /\ (res = "ok" /\ m.type \in DepTypes) =>
@@ -301,7 +302,7 @@ LensR(p, pre, m, f, o, r) ==
                /\ \A i \in DOMAIN o.calls : o.calls[i].ok
                /\ Len(SentMsgs(o.evs)) = 1
          /\ (res = "ok" /\ IsModuleRecv(m)) => Len(OkCalls(o.calls, "Mint")) = 1
-         /\ (\E i \in DOMAIN f : ~f[i]) => res = exp.res
+         /\ ((\E i \in DOMAIN f : ~f[i]) /\ ~DontCare(m)) => res = exp.res
     [] p = "C15" ->
          /\ o.junk = {}
          /\ KeysChanged(pre, o.post) \subseteq (IF res = "ok" THEN AllowedWrites(m) ELSE {})
